@@ -467,6 +467,10 @@ def threadsafe_async_cache(
             except aio.TimeoutError:  # Possible original task lost?
                 pass  # Need to loop around and check
             except (Exception, aio.CancelledError):
+                if waiter.cancelled() and not _cancelling(unknown=True):
+                    # Only the wait was cancelled (the caching loop shut
+                    # down), nobody cancelled this task: check again
+                    continue
                 if not waiter.done():
                     waiter.cancel()
                     try:
@@ -1352,6 +1356,20 @@ async def run_aw_threadsafe(aw: Awaitable[T], loop: Loop) -> T:
     """
     coro = aw if aio.iscoroutine(aw) else _aw_to_coro(aw)
     return await aio.wrap_future(run_coro_ts(coro, loop))
+
+
+def _cancelling(unknown: bool) -> bool:
+    """
+    Has cancellation of the current task itself been requested?
+
+    :param unknown:
+        Answer to give before Python 3.11, where a task cannot tell.
+    """
+    task = aio.current_task()
+    try:
+        return bool(task.cancelling())  # type: ignore[union-attr]
+    except AttributeError:
+        return unknown
 
 
 async def _aw_to_coro(aw: Awaitable[T]) -> T:
